@@ -7,7 +7,7 @@
 //	R3 clock       time.Now/Since/Until -> verifclock.* in listed packages
 //
 // usage: instrument -repo /repo -out <dir>   (writes <dir>/overlay.json)
-// exit 2 on any trouble (missing function, parse error).
+// exit 2 on trouble (missing R2 function, parse error); a missing R1 function is reported, not fatal.
 package main
 
 import (
@@ -83,6 +83,7 @@ var pointFuncs = []string{
 // R1 optional: instrumented when present, silently skipped when absent
 // (names that differ between versions of the product).
 var pointFuncsOptional = []string{
+	"internal/app:runtimeState.loadAuth",
 	"internal/admin:Server.handleMessagesPublish",
 	"internal/admin:Server.handleApplicationEndpointPublish",
 	"internal/mcp:Server.toolConfigApply",
@@ -439,10 +440,18 @@ func main() {
 		}
 	}
 
+	// A listed R1 function that no longer exists (renamed, split, inlined) costs
+	// scheduling points, not soundness: the checks run with fewer interleavings
+	// and the evidence names what was not found.
+	var missing []string
 	for k := range points {
 		if !foundPoint[k] {
-			fail("R1 function not found: %s:%s", k.dir, k.name)
+			missing = append(missing, k.dir+":"+k.name)
 		}
+	}
+	sort.Strings(missing)
+	for _, m := range missing {
+		fmt.Fprintf(os.Stderr, "instrument: warning: R1 function not found, no scheduling points there: %s\n", m)
 	}
 	for k := range osF {
 		if !foundOS[k] {
@@ -455,7 +464,7 @@ func main() {
 		fail("%v", err)
 	}
 	sort.Strings(labels)
-	lb, _ := json.Marshal(map[string]any{"points": labels, "clock_sites": clockSites, "os_sites": osSites, "files": len(replace)})
+	lb, _ := json.Marshal(map[string]any{"points": labels, "clock_sites": clockSites, "os_sites": osSites, "files": len(replace), "missing_point_funcs": missing})
 	_ = os.WriteFile(filepath.Join(*out, "instrument.json"), lb, 0o644)
 	fmt.Printf("instrument: %d files, %d points, %d clock sites, %d os sites\n", len(replace), len(labels), clockSites, osSites)
 }
